@@ -2,6 +2,7 @@
 import ctypes
 import math
 import random
+import re
 import struct
 
 from hypothesis import strategies as st
@@ -23,7 +24,7 @@ class C04(Prop):
             "A C loop adds single-number trees (dense sweep). libFuzzer fz_parse checks the fixed point on parser-made trees. "
             "non-trivial = tree with a non-integer double, an escape-needing byte or depth >= 2; distinct by tree hash")
     ASSUMPTIONS = ["only the C locale exists in this sandbox (decimal point is always '.')"]
-    REQUIRED_CLASSES = ["parsed_then_edited", "container>10000_items", "long_string>=1000", "text_of_several_MB", "non_integer_double", "escape_needed", "depth>=2", "growth_exercised", "from_parser", "top_of_range_double",
+    REQUIRED_CLASSES = ["ownership_flags_variant", "parsed_then_edited", "container>10000_items", "long_string>=1000", "text_of_several_MB", "non_integer_double", "escape_needed", "depth>=2", "growth_exercised", "from_parser", "top_of_range_double",
                         "invalid_utf8", "wide_shallow>limit", "print_history_reused_constant_keys"]
 
     def budget(self, tier):
@@ -196,6 +197,17 @@ class C04(Prop):
                         finally:
                             lib.cJSON_Delete(po.tree)
                 lib.cJSON_Delete(tree)
+                if case["rseed"] % 3 == 1 and model.count_nodes(jv) < 300:
+                    # the same value reached through ownership flags and reference items (at the root and inside the tree)
+                    variant = ["cs_member", "reference", "stale_key", "tail_reference", "holder_of_references"][(case["rseed"] // 3) % 5]
+                    rv = printing.RootVariant(lib, jv, variant, random.Random(case["rseed"]))
+                    try:
+                        if rv.variant != "plain":
+                            stats.cls("ownership_flags_variant")
+                            vtexts = printing.print_all(lib, rv.root, stats, prebuf_subset=case["rseed"])
+                            self.roundtrip(lib, rv.root, vtexts, stats, "tree with ownership flags / reference items (%s)" % rv.variant)
+                    finally:
+                        rv.close()
                 texts_by_mode.append(texts)
                 if lib.ledger_live() != 0:
                     raise Violation("blocks left allocated after print/parse/delete", key="leak")
@@ -207,6 +219,8 @@ class C04(Prop):
 
     def roundtrip(self, lib, tree, texts, stats, what):
         src_dump, fl, _, _ = lib.dump(tree, 1, 0)
+        # (a name the printed item itself still carries - a former member - is not part of its value)
+        src_dump = re.sub(r"\A\((\w)(c?r?)k[0-9a-f]*;", r"(\1\2", src_dump)
         src_mask, src_nums = printing.mask_numbers(printing.strip_ownership(src_dump))
         for fmt in (0, 1):
             T = texts[fmt]
